@@ -123,7 +123,11 @@ def read_dcd(path):
             A, g, B, b, a, C = c
 
             def deg(v):
-                return math.degrees(math.acos(v)) if -1.0 <= v <= 1.0 else v     # cosines (CHARMM >= 25) or degrees
+                # the X-PLOR / NAMD / VMD layout that the header written by mdtraj announces stores the cosines of the cell
+                # angles; mdtraj's own reader also tolerates degrees there, an independent reader of the layout need not
+                if not -1.0 <= v <= 1.0:
+                    raise ValueError("DCD cell record holds %r where the cosine of a cell angle belongs" % v)
+                return math.degrees(math.acos(v))
             cells.append([A, B, C, deg(a), deg(b), deg(g)])
         X = np.frombuffer(rec(), dtype="<f4")
         Y = np.frombuffer(rec(), dtype="<f4")
